@@ -91,6 +91,25 @@ fn pattern(id: u64, generation: u32, off: usize) -> u8 {
     1 + ((id as usize * 37 + generation as usize * 101 + off * 13) % 251) as u8
 }
 
+/// what a value-level entry point must have written (None: uninitialised memory, nothing to compare)
+fn expected_value_bytes(fam: &str, n: usize, tag: u8) -> Option<Vec<u8>> {
+    match fam {
+        "u64" | "with_u64" => Some(vec![tag; 8]),
+        "default_u32" => Some(vec![0; 4]),
+        "copy_u8" | "fill_with_u8" => Some(vec![tag; n]),
+        "clone_u16" => Some(vec![tag; 2 * n]),
+        "move_u32" => Some(vec![tag; 4 * n]),
+        "fill_u64" | "iter_exact_u64" => Some(vec![tag; 8 * n]),
+        "str" => Some(vec![b'a' + tag % 26; n]),
+        "cstr_from_str" => {
+            let mut vv = vec![b'a' + tag % 26; n];
+            vv.push(0);
+            Some(vv)
+        }
+        _ => None,
+    }
+}
+
 fn layout(sz: usize, al: usize) -> Layout {
     Layout::from_size_align(sz, al).expect("behaviour layouts are valid")
 }
@@ -271,12 +290,36 @@ pub fn exec(sc: &mut dyn ScopeOps, ctx: &mut Ctx<'_>) -> Flow {
                     via = "layout"; // a panicking method aborts the process on base allocator failure: use its try_ twin
                 }
                 region().fail_next.set(b(&args, "fail"));
-                let r = catch_unwind(AssertUnwindSafe(|| sc.allocate(l, b(&args, "zeroed"), via)));
+                let fam = s(&args, "fam").to_string();
+                let mut value_bytes: Option<Vec<u8>> = None;
+                let tag = 1 + ((i * 11 + 5) % 250) as u8;
+                let r = if fam.is_empty() {
+                    catch_unwind(AssertUnwindSafe(|| sc.allocate(l, b(&args, "zeroed"), via)))
+                } else {
+                    // value-level entry points: the panicking twins abort on base allocator failure
+                    let vvia = if (ctx.variant == "panicking" || ctx.variant == "typed") && s(&exp, "res") != "ok" { "layout" } else { ctx.variant };
+                    via = if vvia == "trait" { "value" } else { "value_variant" };
+                    let n = u(&args, "n");
+                    let rr = catch_unwind(AssertUnwindSafe(|| sc.alloc_value(&fam, n, tag, vvia)));
+                    match rr {
+                        Ok(Ok((a, len, bytes))) => {
+                            value_bytes = Some(bytes);
+                            Ok(Ok((a, len)))
+                        }
+                        Ok(Err(())) => Ok(Err(())),
+                        Err(e) => Err(e),
+                    }
+                };
                 region().fail_next.set(false);
                 let mut o;
                 match r {
                     Ok(Ok((addr, len))) => {
                         o = Ctx::obs("ok");
+                        if let Some(bytes) = &value_bytes {
+                            // value-level result: the contents written by the entry point
+                            let expect = expected_value_bytes(&fam, u(&args, "n"), tag);
+                            o.insert("content_ok".into(), json!(expect.map(|e| &e == bytes).unwrap_or(true)));
+                        }
                         o.insert("addr".into(), json!(addr));
                         o.insert("len".into(), json!(len));
                         let id = u(&args, "id") as u64;
@@ -518,6 +561,53 @@ pub fn exec(sc: &mut dyn ScopeOps, ctx: &mut Ctx<'_>) -> Flow {
             }
             "guard_reset" => return Flow::GuardReset,
             "reset" | "reset_to_start" | "drop" => return Flow::BumpOp,
+            "try_with" => {
+                ctx.pc += 1;
+                let tag = 1 + ((i * 17 + 3) % 250) as u8;
+                let fam = s(&args, "fam").to_string();
+                let (okv, is_mut, inner) = (b(&args, "ok"), b(&args, "mut"), b(&args, "inner"));
+                let via = if (ctx.variant == "panicking" || ctx.variant == "typed") && s(&exp, "res") != "err" { "panicking" } else { "trait" };
+                region().fail_next.set(b(&args, "fail"));
+                let r = catch_unwind(AssertUnwindSafe(|| sc.try_with(&fam, okv, is_mut, inner, tag, via)));
+                region().fail_next.set(false);
+                let mut o = match r {
+                    Ok(Ok((res, iaddr))) => {
+                        let mut o = Ctx::obs(if res.is_some() { "ok" } else { "errval" });
+                        if iaddr != 0 {
+                            let iid = u(&args, "iid") as u64;
+                            o.insert("iaddr".into(), json!(iaddr));
+                            if iid != 0 {
+                                // the closure's own allocation: filled by the harness right away
+                                let blk = Blk::new(iid, iaddr, 8, 8, 0);
+                                let mem = unsafe { std::slice::from_raw_parts_mut(region().real(iaddr), 8) };
+                                for (off, x) in mem.iter_mut().enumerate() {
+                                    *x = blk.byte(off);
+                                }
+                                ctx.blocks.insert(iid, blk);
+                            }
+                        }
+                        if let Some((addr, bytes)) = res {
+                            o.insert("addr".into(), json!(addr));
+                            o.insert("len".into(), json!(bytes.len()));
+                            o.insert("content_ok".into(), json!(bytes.iter().all(|&x| x == tag)));
+                            let tid = u(&args, "tid") as u64;
+                            if tid != 0 {
+                                ctx.blocks.insert(tid, Blk::new(tid, addr, u(&args, "tsz"), u(&args, "tal"), 0));
+                                o.insert("_fresh".into(), json!(tid));
+                            }
+                        }
+                        o
+                    }
+                    Ok(Err(())) => Ctx::obs("err"),
+                    Err(e) => {
+                        let mut o = Ctx::obs("panic");
+                        o.insert("msg".into(), json!(panic_msg(&e)));
+                        o
+                    }
+                };
+                o.insert("via".into(), json!(via));
+                ctx.record(i, Some(sc), o);
+            }
             "split" => {
                 ctx.pc += 1;
                 let id = u(&args, "id") as u64;
